@@ -19,7 +19,13 @@ type Opts struct {
 	InvoiceOnly bool
 	TaxHeavy    bool // more combos per row, more surcharges / extensions / country overrides / keyed and exempt rates
 	OnlyInclude bool // when a tax is included in prices, rows only carry that category (gross-sum relation of C02)
+	Hostile     bool // legal but degenerate numbers: -100% / 0% / huge percentages (also for taxes), zero quantities and prices (C14)
 }
+
+var hostilePercents = []string{"-100%", "-100.0%", "-100.00%", "0%", "-0%", "100%", "-99.99%", "-101%", "1000000%", "0.0000001%", "-200%"}
+
+// hostileMode is set while a plan is drawn with Opts.Hostile (generation is single threaded per process).
+var hostileMode bool
 
 var commonPercents = []string{"21%", "10%", "4%", "5.5%", "7%", "19%", "20%", "17.5%", "50%", "5%", "0.5%", "12.5%", "2.5%", "100%", "60%", "33.33%", "0%", "16%", "8.875%", "25%", "1.75%", "15%"}
 
@@ -97,6 +103,9 @@ func quantity(t *rapid.T, label string) string {
 }
 
 func percent(t *rapid.T, label string) string {
+	if hostileMode && rapid.IntRange(0, 9).Draw(t, label+"_hostile") < 3 {
+		return rapid.SampledFrom(hostilePercents).Draw(t, label+"_hp")
+	}
 	if rapid.IntRange(0, 9).Draw(t, label+"_kind") < 8 {
 		return rapid.SampledFrom(commonPercents).Draw(t, label)
 	}
@@ -218,7 +227,7 @@ func combosFor(t *rapid.T, label string, reg *pubdata.RegimeInfo, include string
 			cb.Rate = keys[rapid.IntRange(0, len(keys)-1).Draw(t, label+"_key")].Key
 		default:
 			cb.Percent = percent(t, label+"_pct")
-			if strings.HasPrefix(cb.Percent, "-") {
+			if strings.HasPrefix(cb.Percent, "-") && !hostileMode {
 				cb.Percent = strings.TrimPrefix(cb.Percent, "-")
 			}
 			if rapid.IntRange(0, 9).Draw(t, label+"_sur") < pSur {
@@ -238,6 +247,8 @@ func combosFor(t *rapid.T, label string, reg *pubdata.RegimeInfo, include string
 
 // GenPlan draws a document plan.
 func GenPlan(t *rapid.T, o Opts) Plan {
+	hostileMode = o.Hostile
+	defer func() { hostileMode = false }()
 	regs, list := pubdata.Regimes()
 	kinds := o.Kinds
 	if len(kinds) == 0 {
